@@ -228,7 +228,9 @@ impl Writer {
         match self.real {
             RealMode::Sim => {
                 let s = FsSession::start(plan, expected_len);
-                path = PathBuf::from("/sim/writer");
+                // A path that is also valid on the real file system: code that reaches std::fs without going
+                // through the seam (a fully qualified std::fs::File, say) must not fail for that reason alone.
+                path = crate::scratch::file("simwriter");
                 if self.preexisting > 0 { s.put(&path, vec![0xD7; self.preexisting]); }
                 session = Some(s);
             },
@@ -244,7 +246,11 @@ impl Writer {
             RealMode::DevFull => { session = None; path = PathBuf::from("/dev/full"); stats.fault("F3-full (real kernel, /dev/full)", 1); },
         }
         let read_file = |session: &Option<FsSession>| -> Option<Vec<u8>> {
-            match session { Some(s) => s.file(&path), None => if self.real == RealMode::DevFull { None } else { std::fs::read(&path).ok() } }
+            match session {
+                // If the simulated file system never saw an open, the code bypassed the seam and wrote a real file.
+                Some(s) => if s.with(|st| st.counters.opens) == 0 && path.exists() { BYPASSED.with(|b| b.set(true)); std::fs::read(&path).ok() } else { s.file(&path) },
+                None => if self.real == RealMode::DevFull { None } else { std::fs::read(&path).ok() },
+            }
         };
         stats.evaluations += 1;
 
@@ -258,7 +264,7 @@ impl Writer {
         });
         let mut w = match made {
             Ok(Ok(w)) => w,
-            Ok(Err(e)) => { tr.reported.push(format!("constructor: {}", e)); let f = read_file(&session); finish(session, stats); if self.real == RealMode::Plain { let _ = std::fs::remove_file(&path); } return Ok((f, tr)); },
+            Ok(Err(e)) => { tr.reported.push(format!("constructor: {}", e)); let f = read_file(&session); finish(session, stats); if self.real != RealMode::DevFull { let _ = std::fs::remove_file(&path); } return Ok((f, tr)); },
             Err(p) => { finish(session, stats); return Err(v("constructor-panic", site, p)); },
         };
 
@@ -357,7 +363,8 @@ impl Writer {
         let file = read_file(&session);
         if let Some(s) = &session { if s.open_handles() != 0 { let n = s.open_handles(); finish(session, stats); return Err(v("handle-leak", site, format!("{} file handles still open after drop", n))); } }
         finish(session, stats);
-        if self.real == RealMode::Plain { let _ = std::fs::remove_file(&path); }
+        if self.real != RealMode::DevFull { let _ = std::fs::remove_file(&path); }
+        if BYPASSED.with(|b| b.replace(false)) { stats.probe("file seam bypassed: the code under test opened the real file system directly"); }
         Ok((file, tr))
     }
 
@@ -538,6 +545,10 @@ impl Drop for FsizeLimit {
     fn drop(&mut self) {
         unsafe { libc::setrlimit(libc::RLIMIT_FSIZE, &self.old); }
     }
+}
+
+thread_local! {
+    static BYPASSED: std::cell::Cell<bool> = std::cell::Cell::new(false);
 }
 
 thread_local! {
